@@ -164,7 +164,41 @@ theorem C19_trans_mdQuery_shape : ∀ k param : GB.Bytes,
     GB.Generated.Trans.mdQuery_keyTest k param = false →
     k = param ++ [91] ++ GB.Generated.Trans.mdQuery_mdKey k param ++ [93] := by
   intro k param h
-  sorry
+  rw [C19_trans_mdQuery_keyTest] at h
+  rw [C19_trans_mdQuery_mdKey]
+  have h : GB.C19.isMetaKey param k = true := by simpa using h
+  unfold GB.C19.isMetaKey GB.C19.hasPrefix GB.C19.hasSuffix at h
+  simp only [Bool.and_eq_true, beq_iff_eq, decide_eq_true_eq, List.length_cons, List.length_nil] at h
+  obtain ⟨h1, h2, h3⟩ := h
+  have hl : (k.take (param ++ [91]).length).length = (param ++ [91]).length := by rw [h1]
+  simp only [List.length_take, List.length_append, List.length_cons, List.length_nil] at hl
+  have hlen : param.length + 2 ≤ k.length := by
+    by_cases hk : k.length = param.length + 1
+    · exfalso
+      have e1 : k = param ++ [91] := by
+        have := h1
+        rw [List.take_of_length_le (by simp; omega)] at this
+        exact this
+      rw [e1] at h2
+      simp at h2
+    · omega
+  simp only [List.length_append, List.length_cons, List.length_nil] at h1
+  unfold GB.C19.mdKeyOf
+  have e1 : k = k.take (param.length + 1) ++ k.drop (param.length + 1) := (List.take_append_drop _ _).symm
+  have e2 : k.drop (param.length + 1) =
+      (k.drop (param.length + 1)).take (k.length - 1 - (param.length + 1)) ++
+      (k.drop (param.length + 1)).drop (k.length - 1 - (param.length + 1)) := (List.take_append_drop _ _).symm
+  have e3 : (k.drop (param.length + 1)).drop (k.length - 1 - (param.length + 1)) = [93] := by
+    rw [List.drop_drop]
+    have : param.length + 1 + (k.length - 1 - (param.length + 1)) = k.length - 1 := by omega
+    first
+      | (rw [this]; exact h2)
+      | (have t2 : (k.length - 1 - (param.length + 1)) + (param.length + 1) = k.length - 1 := by omega
+         rw [t2]; exact h2)
+  rw [e3] at e2
+  calc k = k.take (param.length + 1) ++ k.drop (param.length + 1) := e1
+    _ = (param ++ [91]) ++ ((k.drop (param.length + 1)).take (k.length - 1 - (param.length + 1)) ++ [93]) := by rw [h1, ← e2]
+    _ = _ := by simp [List.append_assoc]
 
 example : GB.Generated.Trans.mdQuery_keyTest [109, 91, 120, 93] [109] = false := by decide   -- "m[x]", param "m"
 example : GB.Generated.Trans.mdQuery_keyTest [109, 91, 120] [109] = true := by decide        -- "m[x"
